@@ -376,3 +376,39 @@ def run(index, rep, tier):
                               "Node.apply reaches the upward climb (which fires after_fn for every finished internal node) only when `%s` was given: called with after_fn but without %s it never closes a bracket" % (cb, cb))
             rep.check(bounded, "R15.5", f.qualname, "climb `%s` not bounded by the start node" % norm(l.test)[:70], fn_where(f, l), "the upward climb in Node.apply stops at the start node",
                       "Node.apply climbs towards the root with `while %s` and never compares with the start node `self`: started on a subtree whose root is the last child of its parent, it calls after_fn on ancestors that never received before_fn (bracket mismatch)" % norm(l.test)[:90])
+
+    # ---- R15.8 nothing is yielded past the filter
+    with rep.section("R15.8"):
+        rep.rule("R15.8", "nothing is yielded past the filter: in every generator of Tree / Node that takes filter_fn, each yield is either dominated by a test on filter_fn or re-yields from a call that was handed the filter")
+        ny = 0
+        for m in (TM + "_tree", TM + "_node"):
+            for f in index.functions_in_module(m):
+                if "filter_fn" not in f.params:
+                    continue
+                ys = [y for y in walk_no_nested(f.node) if isinstance(y, (ast.Yield, ast.YieldFrom))]
+                if not ys:
+                    continue
+                g = cfg_of(f)
+                pm = parent_map(f.node)
+                for y in ys:
+                    ny += 1
+                    # delegated: `for x in <call(... filter_fn ...)>: yield x`  /  `yield from <call(... filter_fn ...)>`
+                    delegated = False
+                    if isinstance(y, ast.YieldFrom):
+                        delegated = any(isinstance(z, ast.Name) and z.id == "filter_fn" for z in ast.walk(y.value))
+                    q = pm.get(y)
+                    while q is not None and q is not f.node and not delegated:
+                        if isinstance(q, ast.For) and any(isinstance(z, ast.Name) and z.id == "filter_fn" for z in ast.walk(q.iter)) and isinstance(y.value, ast.Name) and any(isinstance(t, ast.Name) and t.id == y.value.id for t in ast.walk(q.target)):
+                            delegated = True
+                        q = pm.get(q)
+                    if delegated:
+                        rep.ob("R15.8", fn_where(f, y), "%s: `%s` re-yields from a call that received the filter" % (f.qualname, norm(y)[:40]), True)
+                        continue
+                    st = pm.get(y)
+                    while st is not None and not isinstance(st, ast.stmt):
+                        st = pm.get(st)
+                    nodes = g.nodes_of_stmt(st)
+                    ok = bool(nodes) and all(g.dominated_by(nd, lambda x: x.kind == "test" and any(isinstance(z, ast.Name) and z.id == "filter_fn" for z in ast.walk(x.ast)), follow_exc=False) for nd in nodes)
+                    rep.check(ok, "R15.8", f.qualname, "a yield that the filter cannot stop", fn_where(f, y), "%s: `%s` is dominated by a test on filter_fn" % (f.qualname, norm(y)[:40]),
+                              "%s has a path to `%s` on which filter_fn was never consulted: on that path (a start node without children, a single-node tree) the item is delivered although the predicate rejects it, so the filtered and internal-only variants no longer yield exactly the passing subsequence" % (f.qualname, norm(y)[:40]))
+        rep.floor("R15.8", "yields in filtered generators", 10, ny)
